@@ -28,10 +28,15 @@ pub mod io {
 pub struct EncodingError { pub opaque: u8 }
 pub mod encoding {
     use vstd::prelude::*;
-    /// hand transcription of src/encoding.rs: `pub(crate) const UTF8_BOM: &[u8] = &[0xEF, 0xBB, 0xBF];`
+//@extract encoding::UTF8_BOM | src/encoding.rs :: const UTF8_BOM | serves=C08,C17,C18
+    // Unicode: the UTF-8 encoding of U+FEFF
     pub exec const UTF8_BOM: &'static [u8]
         ensures UTF8_BOM@.len() == 3, UTF8_BOM@[0] == 0xEF, UTF8_BOM@[1] == 0xBB, UTF8_BOM@[2] == 0xBF
     { &[0xEF, 0xBB, 0xBF] }
+//@end
+//@if encoding
+    pub use crate::encdetect_::{detect_encoding, UTF16_BE_BOM, UTF16_LE_BOM};
+//@endif
 }
 
 pub enum IllFormedError {
@@ -125,7 +130,7 @@ impl From<IllFormedError> for Error {
 
 /// `Decoder::decode` is outside the verified code (std::str::from_utf8 / encoding_rs): its result is an
 /// uninterpreted function of the bytes.
-//@extract encoding::Decoder | src/encoding.rs :: struct Decoder | serves=C01
+//@extract encoding::Decoder | src/encoding.rs :: struct Decoder | serves=C01,C17
  #[derive(Clone, Copy)]
  pub struct Decoder {
 }
@@ -322,7 +327,7 @@ pub enum ParseState {
 }
 //@end
 
-//@extract state::ReaderState | src/reader/state.rs :: struct ReaderState | serves=C01,C03,C04
+//@extract state::ReaderState | src/reader/state.rs :: struct ReaderState | serves=C01,C03,C04,C17
  pub struct ReaderState {
     /// Number of bytes read from the source of data since the reader was created
     pub offset: u64,
